@@ -25,7 +25,7 @@ TECHNIQUE = "Lean 4 proof (invariant by induction over traces, progress by case 
 
 
 def generate(rng, tier):
-    n, steps = {"quick": (14, 20), "thorough": (200, 40), "search": (50, 25)}.get(tier, (14, 20))
+    n, steps = {"quick": (24, 20), "thorough": (200, 40), "search": (50, 25)}.get(tier, (14, 20))
     cases = []
     for i in range(n):
         kind = "bvisual" if i % 5 in (1, 3) else "bsort"
@@ -52,7 +52,7 @@ def generate(rng, tier):
     # pipeline stress: every batch holds all of 3..4 crowded scenes, ONE voting worker, the retrieving thread lags:
     # the next batch is submitted while the previous one is still being voted, so a monitor wait that lets `predict`
     # through early, or bookkeeping done before that wait, shows as a grouping that differs from the simple tracker's
-    for j in range({"quick": 5, "thorough": 40, "search": 12}.get(tier, 5)):
+    for j in range({"quick": 8, "thorough": 40, "search": 12}.get(tier, 5)):
         ns = rng.randint(3, 4)
         world = World(rng, ns, rotated=False, dense=True)
         h = [new_line(rng, "bsort", shards=rng.randint(1, 2), vshards=1, max_idle=rng.randint(1, 3), constraints=[])]
